@@ -7,7 +7,7 @@
    clock); an index file is a sequence of entries [k, pos, del] (pos = position of the
    record in the data file).  rev = compaction revision of the super block.
    Sizes are in units of 8 bytes as the v3 record layout gives them for the driver's
-   payloads (a: 7, b: 9, L: 86, tombstone: 4, super block: 1).
+   payloads (a and c: 7, b: 9, L: 86, tombstone: 4, super block: 1).
 
    Procedure (one Backup step):
      1. local revision < source revision  =>  local Compact2 + CommitCompact, revision := source's
@@ -23,7 +23,7 @@ CONSTANTS Keys, Datas, MaxOps, BKF   \* BKF: deviation ids admitted by the invar
 VARIABLES sdat, sidx, srev, bdat, bidx, brev, clock, synced, hist
 vars == <<sdat, sidx, srev, bdat, bidx, brev, clock, synced, hist>>
 
-Weight(r) == IF r.tomb THEN 4 ELSE CASE r.d = "a" -> 7 [] r.d = "b" -> 9 [] r.d = "L" -> 86 [] OTHER -> 7
+Weight(r) == IF r.tomb THEN 4 ELSE CASE r.d = "a" -> 7 [] r.d = "c" -> 7 [] r.d = "b" -> 9 [] r.d = "L" -> 86 [] OTHER -> 7
 RECURSIVE SizeOf(_)
 SizeOf(dat) == IF dat = <<>> THEN 1 ELSE Weight(Head(dat)) + SizeOf(Tail(dat))
 
